@@ -107,6 +107,7 @@ def _env_of(interp, frame, extra):
         env.update(d)
     env.update(frame.locals)
     env.update(interp.reg.ghost_env)
+    env['ghost'] = interp.st.ghost       # ghost (monitor) state of models and contracts
     # indices of the (enclosing) loops with invariants: `_i_<ordinal>`
     for o, t in getattr(frame, 'loop_index', {}).items():
         env['_i_%s' % o] = t
